@@ -147,6 +147,13 @@ def run(ctx):
         ctx.check(bool(ex) and bad is None, "R18.7", uid, f"new frame hello.py:fetch after {label}", msg=f"ast_frame, previous frame {last}: {bad or 'no exit'}: the logged traceback loses or duplicates a script frame",
                   key=f"frame merge {label}", node=fa, rel="eval.py")
 
+    ctx.rule("R18.8", "raise statements build the exception chain Python builds (raise X, raise X from Y, raise X from None): the report on the script's logger shows the same causes and contexts", floor=3)
+    from ..hcompare import compare_shape
+    from ..schematic import HandlerPolicy
+    hpol = HandlerPolicy(program, raise_at_eval=True)
+    for src in ("raise a0", "raise a0 from a1", "raise a0 from None"):
+        compare_shape(ctx, program, hpol, "R18.8", src, "exec", result="flow", ref_opts={"raise_at_eval": True})
+
     ctx.rule("R18.2", "a file that fails to load does not stop the other files", floor=1)
     f = program.func("__init__.py::load_scripts")
     ok = False
